@@ -82,7 +82,7 @@ InitHist ==
    props |-> <<>>, propDeliv |-> <<>>, reads |-> <<>>, maxExposed |-> 0,
    leadAge |-> [i \in Node |-> 0], heard |-> [i \in Node |-> [j \in Node |-> 0]],
    maxLeaderCommit |-> 0, hsExpPrev |-> [i \in Node |-> NoHS], dlPrev |-> [i \in Node |-> [next |-> 1, inc |-> 0]],
-   cfgIdx |-> [i \in Node |-> 0], cfold |-> [upto |-> 0, st |-> EmptyCfg, points |-> <<>>, init |-> FALSE],
+   cfgIdx |-> [i \in Node |-> 0], cfold |-> [upto |-> 0, st |-> EmptyCfg, points |-> <<>>, init |-> FALSE, twoVoterShrink |-> FALSE],
    outst |-> <<>>, uncAcc |-> [i \in Node |-> [bytes |-> 0, lastAcc |-> 0, applied |-> 0, valid |-> FALSE, prevBytes |-> 0, prevValid |-> FALSE]],
    cnt |-> <<>>]
 
@@ -152,7 +152,10 @@ CFoldAdvance(cf, gc) ==
        IN  IF e.type = "N" THEN CFoldAdvance([cf EXCEPT !.upto = k], gc)
            ELSE LET r == CcApply(cf.st, e.cc)       \* an inapplicable change is vetoed by the application
                     st1 == IF r.ok THEN r.st ELSE cf.st
-                IN  CFoldAdvance([cf EXCEPT !.upto = k, !.st = st1, !.points = MapPut(cf.points, k, st1)], gc)
+                    \* the documented exception of C15: a voter removed/demoted out of a two-voter set
+                    shrink == Cardinality(cf.st.voters) = 2 /\ ~(cf.st.voters \subseteq st1.voters)
+                IN  CFoldAdvance([cf EXCEPT !.upto = k, !.st = st1, !.points = MapPut(cf.points, k, st1),
+                                            !.twoVoterShrink = @ \/ shrink], gc)
 \* configuration in force after applying index k
 FoldedConf(cf, k) ==
   LET ps == {p \in DOMAIN cf.points : p <= k}
@@ -226,7 +229,8 @@ HistNext(h, a, i, pre, post, preD, postD) ==
                 THEN LET st0 == CcRestore([voters |-> SeqSet(cl.conf.voters), outgoing |-> SeqSet(cl.conf.outgoing),
                                            learners |-> SeqSet(cl.conf.learners), learnersNext |-> SeqSet(cl.conf.learnersNext),
                                            autoLeave |-> cl.conf.autoLeave]).st
-                     IN  [upto |-> postD.snap.index, st |-> st0, points |-> (postD.snap.index :> st0), init |-> TRUE]
+                     IN  [upto |-> postD.snap.index, st |-> st0, points |-> (postD.snap.index :> st0), init |-> TRUE,
+                          twoVoterShrink |-> FALSE]
                 ELSE h.cfold
       cfold1 == CFoldAdvance(cfold0, gc1)
       cname == IF a.name = "Deliver" /\ a.keep THEN "Dup" ELSE IF a.name = "CrashInAppend" THEN "Crash" ELSE a.name
